@@ -410,6 +410,53 @@ func main() {
 		o.Set("oracle.readTsWaitsUnbounded", "txn.go:oracle.readTs", "true", ok, "true")
 	}
 	{
+		// The read mark of a transaction is released exactly once: the only `o.readMark.Done(` call of
+		// txn.go sits in oracle.doneRead under `if !txn.doneRead { txn.doneRead = true; … }`.
+		// The conflict history is pruned by the read mark only: o.committedTxns is assigned in
+		// newCommitTs (`append(o.committedTxns, …)`) and in cleanupCommittedTransactions
+		// (`o.committedTxns = tmp`) and nowhere else (no size cap).
+		tx := o.Load("txn.go")
+		dr := tx.Func("oracle.doneRead")
+		doneCalls, inDoneRead := 0, false
+		type asg struct{ fn, rhs string }
+		var assigns []asg
+		for _, d := range tx.AST.Decls {
+			fd, ok := d.(*ast.FuncDecl)
+			if !ok || fd.Body == nil {
+				continue
+			}
+			ast.Inspect(fd.Body, func(n ast.Node) bool {
+				if ce, ok := n.(*ast.CallExpr); ok && tx.Src(ce.Fun) == "o.readMark.Done" {
+					doneCalls++
+					if fd == dr {
+						inDoneRead = true
+					}
+				}
+				if as, ok := n.(*ast.AssignStmt); ok && len(as.Lhs) == 1 && tx.Src(as.Lhs[0]) == "o.committedTxns" {
+					assigns = append(assigns, asg{fd.Name.Name, tx.Src(as.Rhs[0])})
+				}
+				return true
+			})
+		}
+		guarded := dr != nil && len(dr.Body.List) == 1 && func() bool {
+			is, ok := dr.Body.List[0].(*ast.IfStmt)
+			return ok && tx.Src(is.Cond) == "!txn.doneRead" && tx.HasStmt(is.Body, "txn.doneRead = true") && tx.HasStmt(is.Body, "o.readMark.Done(txn.readTs)")
+		}()
+		o.Set("oracle.readMarkDoneOnce", "txn.go:oracle.doneRead/newCommitTs", fmt.Sprint(doneCalls == 1 && inDoneRead && guarded), dr != nil && doneCalls >= 1, "true")
+		okShape, only := false, true
+		for _, a := range assigns {
+			switch {
+			case a.fn == "newCommitTs" && strings.HasPrefix(a.rhs, "append(o.committedTxns,"):
+				okShape = true
+			case a.fn == "cleanupCommittedTransactions" && a.rhs == "tmp":
+			case a.fn == "initCommitState" || a.fn == "newOracle":
+			default:
+				only = false
+			}
+		}
+		o.Set("oracle.historyPrunedByReadMarkOnly", "txn.go:oracle.newCommitTs/cleanupCommittedTransactions", fmt.Sprint(only), okShape, "true")
+	}
+	{
 		const anchor = "cmd/nokv-redis/backend_raft.go:IncrBy/Set/mutate"
 		rf := o.Load("cmd/nokv-redis/backend_raft.go")
 		inc, set, mut := rf.Func("raftBackend.IncrBy"), rf.Func("raftBackend.Set"), rf.Func("raftBackend.mutate")
